@@ -24,7 +24,7 @@ PROPS = {
         "rule": "stream auth-cond: every identity condition x every identity configuration (0-3 identities per provider over a 3-id universe), "
                 "every lifetime limit boundary (0, 1, 2^63/1e9 +-1, 2^64/1e9 +-1, 2^63 +-1, 2^64-1, ...) x lifetimes around the limit (>= 10 s clock margin) "
                 "and extreme expiries, random nested sets for GetMaxValidity/Validate; non-trivial = a discharge request reaches the caveat's own rule "
-                "(not the wrong-access-kind shortcut) resp. a set with >= 2 limits; distinct = distinct Coq case term",
+                "(not the wrong-access-kind shortcut) resp. a set with >= 2 limits; distinct = distinct Coq case term; scale: requests with 33-300 identities and organisation lists (required id first, middle, last, absent; asked three times), each followed by a small request",
         "assumptions": [
             "auth.DischargeRequest.Now() is the wall clock: lifetime cases keep >= 10 s between the requested lifetime and the limit, so the exact boundary instant is covered by the theorem (max_validity_exact), not by the correspondence",
             "Time.Sub saturation is modelled (sat64) and compared at the extreme expiries",
@@ -35,7 +35,7 @@ PROPS = {
         "model_files": LAYER_A_MODEL,
         "rule": "stream clear: random caveat sets (0-6 caveats of every registered kind incl. nested IfPresent to depth 2, unregistered, 3P, bind, attestations) x 1-4 requests of the four request kinds "
                 "(flyio with clock input, discharge, bare, action-only; ~20% arbitrary presence patterns), plus every caveat kind singly against every request kind; observable = nil / sentinel class set; "
-                "implementation-side oracle: Validate clears iff every request validates and every non-attestation caveat clears every request; non-trivial = non-empty set; distinct = distinct Coq case term",
+                "implementation-side oracle: Validate clears iff every request validates and every non-attestation caveat clears every request; non-trivial = non-empty set; distinct = distinct Coq case term; history: a set validated before whose members were replaced at the same length or re-filled from JSON decides by its current members",
         "assumptions": ["errors are observed through errors.Is against the library's sentinels only"],
     },
     "C10": {
@@ -44,7 +44,7 @@ PROPS = {
         "generated_obligations": [],
         "rule": "stream flyio-rules: all 2^10 presence patterns of the request hierarchy fields x {litefs-cloud, other} feature for Access.Validate (exhaustive); per Fly.io caveat type random values over small universes "
                 "steered to the caveat's resource; validity-window end points +-1 s / +-1 ns around both ends incl. the int64 wrap of time.Unix; every MemberFeatures entry x every action < 64 x 4 role masks; "
-                "non-trivial = flyio request (not the wrong-access shortcut); distinct = distinct Coq case term",
+                "non-trivial = flyio request (not the wrong-access shortcut); distinct = distinct Coq case term; scale: the same large sets in the flyio-rules stream; role checks with undefined mask bits asked right after the same mask without them, in both orders",
         "assumptions": ["flyio.Access.Now() is replaced by a harness clock (embedding *flyio.Access and overriding Now) so window boundaries are exact",
                         "MemberFeatures is regenerated from the source into Generated/Facts.v on every run; member_features_pinned re-checks it against the documented table"],
     },
@@ -53,7 +53,7 @@ PROPS = {
         "model_files": LAYER_A_MODEL,
         "rule": "stream resset: exhaustive over entry subsets (<=2 entries quick, <=3 thorough) of the id universe {\"\", a, ab, b} x masks x request ids {absent, zero, listed, unlisted, prefix-extended} x action masks, "
                 "for string, prefix and integer resource sets; CAction exhaustively over the mask/action universes; random IfPresent nested to depth 3 and random sets with an implementation-side monotonicity oracle "
-                "(a permitted action's random subset must be permitted); repeated evaluation of one map-backed set (iteration order); non-trivial = the request reaches the set's rule; distinct = distinct Coq case term",
+                "(a permitted action's random subset must be permitted); repeated evaluation of one map-backed set (iteration order); non-trivial = the request reaches the set's rule; distinct = distinct Coq case term; scale: prefix / string / integer sets of 9-257 (thorough: 1000) entries and conditionals of 9-257 members, every question asked three times",
         "assumptions": ["Go map iteration order is arbitrary: rs_perm_invariant proves the verdict does not depend on it; the harness emits entries sorted"],
     },
     "C17": {
@@ -61,7 +61,7 @@ PROPS = {
         "model_files": LAYER_A_MODEL + ["Model/Scope.v"],
         "rule": "stream scope: random caveat sets mixing Organization/Apps/Clusters/FeatureSet/IfPresent(nested <=2)/ValidityWindow/Action/IsUser/FlyioUserID (0-5 caveats, wildcard and conflicting ids, any masks); "
                 "OrganizationScope, AppScope, ClusterScope, AppsAllowing (5 actions), Expiration, DangerousUserID compared with the model; implementation-side brute-force oracle over the id universe "
-                "(listed ids clear, left-out ids do not, unrestricted only if all clear, nothing clears after the expiry); non-trivial = the set contains a caveat of the kind the helper reads",
+                "(listed ids clear, left-out ids do not, unrestricted only if all clear, nothing clears after the expiry); non-trivial = the set contains a caveat of the kind the helper reads; scale: Apps / Clusters caveats of 33-600 entries (alone, overlapping, under a conditional); history: one request object checked in a loop across the token's computed expiry in real time",
         "assumptions": ["the helpers read time.Now() through flyio.Access: generated validity windows stay >= 1 h away from the wall clock; the model takes the clock as an input"],
     },
     "C19": {
@@ -70,7 +70,7 @@ PROPS = {
         "rule": "stream header: random token lists (1-5 tokens, lengths 1-200 incl. every length class mod 3) formatted by ToAuthorizationHeader, re-labelled per token (fm2/fm1r/fm1a), decorated (0-3 schemes FlyV1/Bearer in random case, random ASCII whitespace) "
                 "and corrupted in 12 ways (unknown label, missing separator, bad alphabet, bad padding, embedded CR/LF, empty element, spaces around commas, fo1 entries, empty token, only-oauth, label variants, random byte); "
                 "Parse, StripAuthorizationScheme, ToAuthorizationHeader, bundle tokeniser (typed parts), base64 decoder and FindPermissionAndDischargeTokens compared with the model; implementation-side round-trip oracle; ASCII only; "
-                "non-trivial = all header cases (base64 cases: decodes to non-empty); distinct = distinct Coq case term",
+                "non-trivial = all header cases (base64 cases: decodes to non-empty); distinct = distinct Coq case term; scale: tokens of 4095-20000 bytes formatted and parsed back; history: one header read for several issuers in a row",
         "assumptions": ["headers are ASCII: Go's Unicode TrimSpace/EqualFold on non-ASCII input is outside the model (guard stated in the theorems' domain: str = list of bytes < 128 is what the generator emits)",
                         "encoding/base64 is modelled (Model/Base64.v) and compared directly on ~300/8000 strings per run"],
     },
@@ -83,7 +83,7 @@ PROPS = {
                           "Go sync.RWMutex modelled as writer-preferring (RLock blocks behind a pending Lock)"],
         "rule": "T-mode: every control-flow path (loops unrolled 0/1/2 times, callees inlined, deferred releases at return) of every Bundle method and generic helper is translated from /repo/bundle on every run and checked flat inside Coq "
                 "(lockprogs_flat); evaluations = translated paths; non-trivial = distinct non-empty paths; support: goroutine stress of every pair of operations (incl. on a Select-ed bundle sharing the lock) with a deadlock watchdog "
-                "(and the race detector in the thorough tier / when the obligation breaks)",
+                "(and the race detector in the thorough tier / when the obligation breaks); the library's own concurrent user of a bundle, the discharge client's fan-out, over 1, 2, 8, 9, 16, 17, 40 and 100 tickets against an in-process third party: the call returns and every discharge is in the result",
         "assumptions": ["race freedom is at the model's granularity (accesses to the token list and in-place token updates under the Bundle lock); token objects reached through returned Macaroon values are documented as unsafe by the library and not claimed",
                         "user callbacks (predicates, ForEach/Map/Reduce functions, Discharger) are assumed terminating and not to call back into the same bundle"],
     },
@@ -97,21 +97,21 @@ PROPS = {
     "C02": {
         "obligation_files": ["Properties/C02.v"],
         "model_files": ['Model/Sym.v', 'Model/Ops.v', 'Corr/Transport.v', 'Corr/RunS.v'],
-        "rule": "stream sym-atten (scenario language of coq/Model/Ops.v interpreted on the real library with real HMAC/SHA-256/ChaCha20-Poly1305 and symbolically in Coq): chains of 1-3 attenuation steps from the encoded token (clone, add 1-2 data caveats incl. exact duplicates and near-duplicates, sometimes a third-party caveat), re-adding identical caveats (token must be byte-identical: OSameWire), verify child and parent with the same discharges; oracle: child accepted => parent accepted and the parent's returned caveats are a sub-multiset of the child's; observable per Verify = accept/reject, returned caveat identities in order, reachable attestations; every scenario is non-trivial (contains at least one Verify); distinct = distinct scenario term",
+        "rule": "stream sym-atten (scenario language of coq/Model/Ops.v interpreted on the real library with real HMAC/SHA-256/ChaCha20-Poly1305 and symbolically in Coq): chains of 1-3 attenuation steps from the encoded token (clone, add 1-2 data caveats incl. exact duplicates and near-duplicates, sometimes a third-party caveat), re-adding identical caveats (token must be byte-identical: OSameWire), verify child and parent with the same discharges; oracle: child accepted => parent accepted and the parent's returned caveats are a sub-multiset of the child's; observable per Verify = accept/reject, returned caveat identities in order, reachable attestations; every scenario is non-trivial (contains at least one Verify); distinct = distinct scenario term; history: an Add refused as a whole followed by Adds of its caveats on the same object; attenuations verified through a VerificationCache that already accepted the original",
         "assumptions": ["symbolic cryptography: HMAC-SHA256, SHA-256, its 16-byte prefix and ChaCha20-Poly1305 are free injective non-invertible constructors, random values are fresh atoms, the attacker is the Dolev-Yao closure; computational soundness and collision probabilities are outside the theorems",
                         "data caveats are abstract in this layer (identity = canonical encoding, attestation flag, wraps-attestation flag); the Go side maps real caveats to identities through their canonical encoding"],
     },
     "C04": {
         "obligation_files": ["Properties/C04.v"],
         "model_files": ['Model/Sym.v', 'Model/Ops.v', 'Corr/Transport.v', 'Corr/RunS.v'],
-        "rule": "stream sym-3p (scenario language of coq/Model/Ops.v interpreted on the real library with real HMAC/SHA-256/ChaCha20-Poly1305 and symbolically in Coq): tokens with 1-2 third-party caveats at random positions; presented discharge multisets drawn from {genuine, for another token's ticket, re-keyed (right ticket, wrong secret), tampered, nested (itself demanding a discharge), extended, duplicate}, wrong third-party key at DischargeTicket, verifier-key/ticket splices between tokens; four presentation orders each; observable per Verify = accept/reject, returned caveat identities in order, reachable attestations; every scenario is non-trivial (contains at least one Verify); distinct = distinct scenario term",
+        "rule": "stream sym-3p (scenario language of coq/Model/Ops.v interpreted on the real library with real HMAC/SHA-256/ChaCha20-Poly1305 and symbolically in Coq): tokens with 1-2 third-party caveats at random positions; presented discharge multisets drawn from {genuine, for another token's ticket, re-keyed (right ticket, wrong secret), tampered, nested (itself demanding a discharge), extended, duplicate}, wrong third-party key at DischargeTicket, verifier-key/ticket splices between tokens; four presentation orders each; observable per Verify = accept/reject, returned caveat identities in order, reachable attestations; every scenario is non-trivial (contains at least one Verify); distinct = distinct scenario term; history: one prepared third-party caveat object added to six tokens (each accepts its genuine discharge, none a token minted for its ticket under a made-up key)",
         "assumptions": ["symbolic cryptography: HMAC-SHA256, SHA-256, its 16-byte prefix and ChaCha20-Poly1305 are free injective non-invertible constructors, random values are fresh atoms, the attacker is the Dolev-Yao closure; computational soundness and collision probabilities are outside the theorems",
                         "data caveats are abstract in this layer (identity = canonical encoding, attestation flag, wraps-attestation flag); the Go side maps real caveats to identities through their canonical encoding"],
     },
     "C05": {
         "obligation_files": ["Properties/C05.v"],
         "model_files": ['Model/Sym.v', 'Model/Ops.v', 'Corr/Transport.v', 'Corr/RunS.v'],
-        "rule": "stream sym-honest (scenario language of coq/Model/Ops.v interpreted on the real library with real HMAC/SHA-256/ChaCha20-Poly1305 and symbolically in Coq): random honest histories: mint (v0/v1 nonce, occasionally a proof root), 0-3 clone+add steps by different holders, 0-2 third-party caveats, discharges (proof / non-proof, with caveats and attestations, optionally bound to a chain member), verification direct and through the wire, by a clone, without trusted keys and under a wrong key; oracle: the honest presentation is accepted and a clone verifies identically; observable per Verify = accept/reject, returned caveat identities in order, reachable attestations; every scenario is non-trivial (contains at least one Verify); distinct = distinct scenario term",
+        "rule": "stream sym-honest (scenario language of coq/Model/Ops.v interpreted on the real library with real HMAC/SHA-256/ChaCha20-Poly1305 and symbolically in Coq): random honest histories: mint (v0/v1 nonce, occasionally a proof root), 0-3 clone+add steps by different holders, 0-2 third-party caveats, discharges (proof / non-proof, with caveats and attestations, optionally bound to a chain member), verification direct and through the wire, by a clone, without trusted keys and under a wrong key; oracle: the honest presentation is accepted and a clone verifies identically; observable per Verify = accept/reject, returned caveat identities in order, reachable attestations; every scenario is non-trivial (contains at least one Verify); distinct = distinct scenario term; history: one prepared third-party caveat object on many tokens; several presentations of one non-proof discharge nonce with different contents through Verify(bytes)",
         "assumptions": ["symbolic cryptography: HMAC-SHA256, SHA-256, its 16-byte prefix and ChaCha20-Poly1305 are free injective non-invertible constructors, random values are fresh atoms, the attacker is the Dolev-Yao closure; computational soundness and collision probabilities are outside the theorems",
                         "data caveats are abstract in this layer (identity = canonical encoding, attestation flag, wraps-attestation flag); the Go side maps real caveats to identities through their canonical encoding"],
     },
@@ -132,7 +132,7 @@ PROPS = {
     "C08": {
         "obligation_files": ["Properties/C08.v"],
         "model_files": ['Model/Sym.v', 'Model/Ops.v', 'Corr/Transport.v', 'Corr/RunS.v'],
-        "rule": "stream sym-proof (scenario language of coq/Model/Ops.v interpreted on the real library with real HMAC/SHA-256/ChaCha20-Poly1305 and symbolically in Coq): random sequences (1-7 steps) of add / encode / clone / raw decode / verify (wire and direct) / same-wire comparison on a fresh proof discharge and its copies, and hand-built extensions from the published tail with 5 tail shapes; oracle: Add never succeeds after the first encode, no hand extension is accepted; observable per Verify = accept/reject, returned caveat identities in order, reachable attestations; every scenario is non-trivial (contains at least one Verify); distinct = distinct scenario term",
+        "rule": "stream sym-proof (scenario language of coq/Model/Ops.v interpreted on the real library with real HMAC/SHA-256/ChaCha20-Poly1305 and symbolically in Coq): random sequences (1-7 steps) of add / encode / clone / raw decode / verify (wire and direct) / same-wire comparison on a fresh proof discharge and its copies, and hand-built extensions from the published tail with 5 tail shapes; oracle: Add never succeeds after the first encode, no hand extension is accepted; observable per Verify = accept/reject, returned caveat identities in order, reachable attestations; every scenario is non-trivial (contains at least one Verify); distinct = distinct scenario term; history: a finalised proof and the bytes Encode returned, re-examined after the process minted, sealed and encoded 900 other tokens",
         "assumptions": ["symbolic cryptography: HMAC-SHA256, SHA-256, its 16-byte prefix and ChaCha20-Poly1305 are free injective non-invertible constructors, random values are fresh atoms, the attacker is the Dolev-Yao closure; computational soundness and collision probabilities are outside the theorems",
                         "data caveats are abstract in this layer (identity = canonical encoding, attestation flag, wraps-attestation flag); the Go side maps real caveats to identities through their canonical encoding"],
     },
@@ -142,7 +142,7 @@ PROPS = {
         "rule": "stream client-opts: 1-3 third-party locations over 12 authority variants (port, case, sub-/super-domain, look-alike suffix/prefix, userinfo tricks, IP literals, base paths), 1-2 permission tokens with third-party caveats, 0-6 client options in random order and repetition "
                 "(WithHTTP with 3 capturing transports, WithAuthentication / WithBearerAuthentication for configured or other hosts incl. non-URL locations and empty credentials, WithIgnoredThirdParties, WithPollingBackoff) and scripted third-party replies "
                 "(immediate discharge, poll URL on an arbitrary host with 0-2 'not ready', 307 redirects to arbitrary hosts nested up to 3 deep, errors); observable = multiset of (transport, URL hostname, Authorization) of every captured request and the number of discharges appended; "
-                "implementation-side oracle on the returned header (scheme prefix kept, caller's tokens unchanged and in order, discharges appended); non-trivial = at least one request was made",
+                "implementation-side oracle on the returned header (scheme prefix kept, caller's tokens unchanged and in order, discharges appended); non-trivial = at least one request was made; history: the client is handed its own previous result three more times (no request, same header, scheme prefix kept)",
         "assumptions": ["net/url (Parse, IsAbs, Hostname) and net/http's redirect following are trusted and exercised, not modelled: the model works on the hostnames Go reports",
                         "net/http adds 'Basic <userinfo>' itself for URLs carrying userinfo; the harness does not count that as a configured credential"],
     },
@@ -194,7 +194,7 @@ PROPS = {
         "model_files": ['Model/Caveat.v', 'Model/Msgpack.v', 'Model/Codec.v', 'Corr/Transport.v', 'Corr/RunM.v'],
         "rule": "stream malformed: structurally valid tokens damaged in 9 ways (byte mutation, nil in place of a field, oversized length prefixes array32/map32/bin32/str32/array16, nesting up to 2000 deep, unknown types with arbitrary bodies and mistyped bodies for registered types, truncation, random bytes, the recorded crashers F2-F5/F11, mistyped spliced values), "
                 "JSON documents (null bodies, null ifs, wrong shapes, mutated) and header strings; every input goes through Decode / DecodeCaveats / DecodeNonce / Parse / ParseBundle and then EVERY operation the library offers on the result (Validate, GetCaveats, scopes, Expiration, tickets, Verify, Add, Encode, String, Clone, JSON, bundle ops) under recover() with a TotalAlloc bound of 256*len + 64 MiB; "
-                "the model's Decoder.Skip is compared on the same hostile inputs; non-trivial = all inputs",
+                "the model's Decoder.Skip is compared on the same hostile inputs; non-trivial = all inputs; scale: an array header that lies in front of 63-300 well-formed caveats (decode-only allocation bound); Count/Any with whole-list filters before printing, cloning and verifying every parsed bundle",
         "assumptions": ["partial: Go-runtime panics, stack growth on deep nesting and real allocation are exhibited by this fuzz run (support), not by the theorems; the theorems bound what the parser model can be made to allocate or return",
                         "msgpack's own chunked allocation limits (1 MB per byte string read attempt) are relied on and covered by the measured bound"],
     },
